@@ -5,15 +5,19 @@
  * Contract (from the function's own header comment: "The ok_array, if set, allows the application to limit what features the
  * user is allowed to set or clear using this function.  If clear_ok_array is set, then use it [to] tell whether or not it is
  * OK to clear a filesystem feature" — and from what tune2fs relies on, unit tune_update_feature_set), for a caller that
- * passes BOTH masks (tune2fs is the only one):
- *   E1  RET == 0  =>  for each of the three words: bits turned on lie in ok_array[t], bits turned off in clear_ok_array[t];
- *   E2  RET != 0 for a bit outside the masks: *type_err / *mask_err name the offending feature (type | NEGATE for a clear).
- * Level U/iter: the loop over the comma separated words is cut by its in-place loop contract (named anchor); what one word
- * does is proved from an arbitrary state satisfying the invariant E1-so-far.  e2p_string2feature (same file) is replaced by a
- * contract that names an ARBITRARY feature (any word, any mask) or rejects the word; strcasecmp is an arbitrary stub, so
- * every word may or may not be the keyword "none"/"clear".
+ * passes BOTH masks (tune2fs is the only one), O = the feature words at the time of the call:
+ *   E1  RET == 0  =>  for each of the three words: bits turned on (vs. O) lie in ok_array[t], bits turned off in
+ *       clear_ok_array[t];
+ *   E2  RET != 0 for a bit outside the masks: *type_err / *mask_err name a feature that really is outside the mask that
+ *       applies (type | NEGATE for a clear).
+ * Level U/iter, without a hook: E1 is an inductive invariant of the loop over the comma separated words.  The harness hands
+ * the real function a request of exactly ONE word (optionally prefixed by ^ - +) together with ARBITRARY current feature
+ * words S and ARBITRARY original words O such that E1(S, O) holds, and checks E1(S', O) afterwards: that is the induction
+ * step for an arbitrary word at an arbitrary position of an arbitrary request (base: E1(O, O)).  Which feature the word names
+ * is decided by e2p_string2feature (same file), replaced by a contract that answers an arbitrary word index / mask or
+ * "unknown"; strcasecmp is an arbitrary stub, so the word may or may not be the keyword "none"/"clear".
  *
- * Units:  tune_e2p_edit_feature2_words   no word is the keyword none/clear                        green
+ * Units:  tune_e2p_edit_feature2_words   the word is not the keyword none/clear                   green
  *         tune_e2p_edit_feature2         any word                                                FAILS on the tree: the keyword
  *         zeroes all three words without consulting clear_ok_array -> `tune2fs -O none` clears extent, sparse_super, ext_attr
  *         ... although `tune2fs -O ^extent` is refused (findings/C11_feature_none_bypasses_clear_mask).
@@ -23,26 +27,21 @@
  "name": "tune_e2p_edit_feature2_words",
  "props": ["C11"],
  "level": "U/iter",
- "tier": "wip",
- "tier_after_hooks": "quick",
+ "tier": "quick",
  "harness": "h_edit_feature2",
  "defines": ["NO_KEYWORD=1"],
- "replace": ["e2p_string2feature", "skip_over_blanks", "skip_over_word"],
- "loop_contracts": true,
- "unwind": 10,
- "cbmc_flags": ["--object-bits", "10"],
- "unwind_reason": "the word loop is cut by its in-place loop contract (named anchor VERIF_INV_E2P_EDIT_FEATURE2_WORDS); strlen/strcpy run over the request string, capped at 7 characters (see assumes); DFCC library loops",
+ "replace": ["e2p_string2feature"],
+ "unwind": 6,
+ "cbmc_flags": ["--object-bits", "8"],
+ "unwind_reason": "one-word request of at most 2 characters: the word loop runs once (second test leaves it), skip_over_blanks / skip_over_word / strlen / strcpy walk at most 3 characters (unwinding assertions on); DFCC library loops",
  "functions": ["lib/e2p/feature.c:e2p_edit_feature2"],
  "assumes": [
-  "NEEDS the hook in hooks-pending/tune.diff (named loop anchor in lib/e2p/feature.c)",
-  "request string of exactly 7 characters, arbitrary content incl. blanks and commas (shorter requests: pad with separators) (the cap only bounds strlen/strcpy of the private copy; where words end and which feature a word names is decided arbitrarily by the replaced helpers)",
-  "both masks given (non-null), arbitrary content; feature words arbitrary; type_err / mask_err given",
-  "no word equals the keyword none/clear (strcasecmp against a string literal answers 'different'); unit tune_e2p_edit_feature2 drops this",
-  "skip_over_blanks / skip_over_word (same file) by contract: they return SOME position between their argument and the terminating NUL of the request copy (over-approximation of every classification of characters)",
-  "malloc succeeds (a failing malloc returns 1 before anything is touched)"
+  "U/iter: induction step of the invariant E1 for ONE word from arbitrary current feature words S related to arbitrary original words O by E1; the word is 'a', '^a', '-a' or '+a' — its letters are irrelevant because e2p_string2feature (replaced by contract: arbitrary word index 0..2 and an arbitrary single-bit mask, or 'unknown') and strcasecmp (arbitrary) are the only readers",
+  "both masks given (non-null), arbitrary content; type_err / mask_err given",
+  "the word is not the keyword none/clear (strcasecmp answers 'different'); unit tune_e2p_edit_feature2 drops this",
+  "strlen() of the 2-character request is the literal 2 (stub; keeps the private copy a fixed-size object); isspace() false for the four characters used (glibc table stub); malloc may fail (e2p_edit_feature2 then returns 1 before anything is touched)"
  ],
- "native": false,
- "timeout": 600
+ "native": false
 }
 */
 /* VERIF-UNIT
@@ -52,132 +51,146 @@
  "level": "U/iter",
  "tier": "wip",
  "harness": "h_edit_feature2",
- "replace": ["e2p_string2feature", "skip_over_blanks", "skip_over_word"],
- "loop_contracts": true,
- "unwind": 10,
- "cbmc_flags": ["--object-bits", "10"],
+ "replace": ["e2p_string2feature"],
+ "unwind": 6,
+ "cbmc_flags": ["--object-bits", "8"],
  "unwind_reason": "as tune_e2p_edit_feature2_words",
  "functions": ["lib/e2p/feature.c:e2p_edit_feature2"],
  "assumes": [
   "as tune_e2p_edit_feature2_words without the keyword assumption",
-  "EXPECTED TO FAIL until findings/C11_feature_none_bypasses_clear_mask/proposed-fix.patch is applied (invariant step: the keyword none/clear clears bits outside clear_ok_array)"
+  "EXPECTED TO FAIL until findings/C11_feature_none_bypasses_clear_mask/proposed-fix.patch is applied (E1: the keyword none/clear clears bits outside clear_ok_array)"
  ],
- "native": false,
- "timeout": 600
+ "native": false
+}
+*/
+/* VERIF-UNIT
+{
+ "name": "tune_e2p_feature_list_single_bit",
+ "props": ["C11"],
+ "level": "U",
+ "tier": "quick",
+ "harness": "h_feature_list",
+ "static_keep": ["feature_list"],
+ "unwind": 6,
+ "cbmc_flags": ["--object-bits", "8"],
+ "unwind_reason": "no loop (one arbitrary table index); DFCC library loops",
+ "functions": ["lib/e2p/feature.c:feature_list"],
+ "assumes": [
+  "backs the contract used for e2p_string2feature in tune_e2p_edit_feature2*: every entry of the name table feature_list[] (kept with its initialiser) carries a word index 0..2 and a mask of exactly one bit; the table ends with a null name.  The FEATURE_xNN spelling yields 1 << NN by construction (not covered: the table look-up loop itself)"
+ ],
+ "native": false
 }
 */
 #include "verif.h"
 
-unsigned long long verif_k;
-int verif_old_bit;
-/* verif_g0 = length of the request string; verif_g1..g3 = feature words on entry */
-unsigned long long verif_g0, verif_g1, verif_g2, verif_g3, verif_g4, verif_g5, verif_g6, verif_g7;
-const unsigned char *verif_p0, *verif_p1, *verif_p2, *verif_p3;
-
 struct in_s {
-	char str[8];
-	unsigned int feat[3], ok[3], clear_ok[3];
-	int s2f_ret[4], s2f_type[4];
-	unsigned int s2f_mask[4];
+	unsigned int k;
+	char c0;
+	unsigned int feat[3], orig[3], ok[3], clear_ok[3];
 };
 struct in_s IN;
 #include "verif_in.h"
 
 #ifndef VERIF_NATIVE
 int nondet_int(void);
-unsigned int nondet_uint(void);
 #endif
 
-#define E1_WORD(t, entry) \
-	(((compat_array[t] & ~(unsigned int)(entry)) & ~ok_array[t]) == 0 && \
-	 (((unsigned int)(entry) & ~compat_array[t]) & ~clear_ok_array[t]) == 0)
-
-#define VERIF_INV_E2P_EDIT_FEATURE2_WORDS \
-	__CPROVER_assigns(cp, next, neg, mask, compat_type, rc, __CPROVER_object_whole(buf), \
-			  __CPROVER_object_whole(compat_array), *type_err, *mask_err, verif_g4, verif_g5) \
-	__CPROVER_loop_invariant(cp == 0 || (__CPROVER_same_object(cp, buf) && __CPROVER_POINTER_OFFSET(cp) <= verif_g0)) \
-	__CPROVER_loop_invariant(buf[verif_g0] == 0) \
-	__CPROVER_loop_invariant(rc == 0 && *type_err == 0 && *mask_err == 0) \
-	__CPROVER_loop_invariant(E1_WORD(0, verif_g1) && E1_WORD(1, verif_g2) && E1_WORD(2, verif_g3))
-
 int e2p_string2feature(char *string, int *compat_type, unsigned int *mask);
-static char *skip_over_blanks(char *cp);
-static char *skip_over_word(char *cp);
 
 #include "lib/e2p/feature.c"
 
-/* word boundaries: some position between cp and the terminating NUL of the request copy (verif_g5 = distance, arbitrary);
- * the content of the words is irrelevant here (e2p_string2feature and strcasecmp answer arbitrarily) */
-#define SKIP_CONTRACT \
-	REQUIRES(__CPROVER_POINTER_OFFSET(cp) <= verif_g0 && __CPROVER_OBJECT_SIZE(cp) == verif_g0 + 1) \
-	ASSIGNS(verif_g5) \
-	ENSURES(verif_g5 <= verif_g0 - __CPROVER_POINTER_OFFSET(cp) && __CPROVER_pointer_equals(RET, cp + verif_g5))
-static char *skip_over_blanks(char *cp) SKIP_CONTRACT;
-static char *skip_over_word(char *cp) SKIP_CONTRACT;
-
-/* arbitrary feature, or "no such word"; verif_g4 counts the calls (independent draws inside the cut loop) */
+/* an arbitrary feature, or "no such word" */
 int e2p_string2feature(char *string, int *compat_type, unsigned int *mask)
-	ASSIGNS(*compat_type, *mask, verif_g4)
-	ENSURES(RET != 0 || (*compat_type >= 0 && *compat_type <= 2));
+	ASSIGNS(*compat_type, *mask)
+	ENSURES(RET != 0 || (*compat_type >= 0 && *compat_type <= 2))
+	/* ONE feature bit: every entry of feature_list[] is a single-bit macro (unit tune_e2p_feature_list_single_bit), FEATURE_xNN
+	 * gives 1 << NN */
+	ENSURES(RET != 0 || (*mask != 0 && (*mask & (*mask - 1)) == 0));
 
+/* glibc's isspace(): table look-up */
+static unsigned short CT[384];
+static const unsigned short *CTP;
+const unsigned short **__ctype_b_loc(void) { return &CTP; }
+
+/* the request always has exactly two characters (harness): a literal keeps the private copy a fixed-size object */
+size_t strlen(const char *s) { return 2; }
+static int KEYWORD_SEEN;
 int strcasecmp(const char *s1, const char *s2)
 {
 #ifdef NO_KEYWORD
 	return 1;	/* the only two comparisons e2p_edit_feature2 makes itself are against "none" and "clear" */
 #else
-	return nondet_int();
+	int r = nondet_int();
+	if (r == 0)
+		KEYWORD_SEEN = 1;
+	return r;
 #endif
 }
-#ifndef VERIF_NATIVE
-void *malloc(size_t n) { return __CPROVER_allocate(n, 0); }
-#endif
-/* the request string has exactly 7 characters (harness): a literal length keeps the private copy a fixed-size object */
-size_t strlen(const char *s) { return 7; }
+
+void h_feature_list(void)
+{
+	unsigned int n = sizeof(feature_list) / sizeof(feature_list[0]);
+
+	LOAD_IN();
+	ASSUME(IN.k < n - 1);
+	CHECK(feature_list[IN.k].string != 0, "only the last entry has a null name");
+	CHECK(feature_list[IN.k].compat >= 0 && feature_list[IN.k].compat <= 2, "word index 0..2");
+	CHECK(feature_list[IN.k].mask != 0 && (feature_list[IN.k].mask & (feature_list[IN.k].mask - 1)) == 0, "exactly one feature bit");
+	CHECK(feature_list[n - 1].string == 0, "terminator");
+	if (IN.k == 40) REACH("entry-40");
+	REACH("end");
+}
+
+#define E1(s, o, t) ((((s)[t] & ~(o)[t]) & ~IN.ok[t]) == 0 && (((o)[t] & ~(s)[t]) & ~IN.clear_ok[t]) == 0)
 
 void h_edit_feature2(void)
 {
 	unsigned int feat[3], ok[3], clear_ok[3];
 	int type_err, r, t;
 	unsigned int mask_err;
-	char str[8];
+	char str[3];
 
 	LOAD_IN();
-	for (t = 0; t < 8; t++)
-		str[t] = IN.str[t];
-	str[7] = 0;
-	for (t = 0; t < 7; t++)
-		ASSUME(str[t] != 0);
+	ASSUME(IN.c0 == '^' || IN.c0 == '-' || IN.c0 == '+' || IN.c0 == 'a');
+	str[0] = IN.c0; str[1] = 'a'; str[2] = 0;
+	CTP = CT + 128;
+	CT[128 + '^'] = CT[128 + '-'] = CT[128 + '+'] = CT[128 + 'a'] = CT[128] = 0;
 	for (t = 0; t < 3; t++) {
 		feat[t] = IN.feat[t];
 		ok[t] = IN.ok[t];
 		clear_ok[t] = IN.clear_ok[t];
+		/* induction hypothesis: the words processed so far kept E1 with respect to the original words */
+		ASSUME(E1(IN.feat, IN.orig, t));
 	}
-	verif_g0 = 7;
-	verif_g1 = feat[0]; verif_g2 = feat[1]; verif_g3 = feat[2];
-	verif_g4 = verif_g5 = 0;
 	type_err = -1;
 	mask_err = 0;
+	KEYWORD_SEEN = 0;
 
 	r = e2p_edit_feature2(str, feat, ok, clear_ok, &type_err, &mask_err);
 
 	if (r == 0) {
 		for (t = 0; t < 3; t++) {
-			CHECK(((feat[t] & ~IN.feat[t]) & ~IN.ok[t]) == 0, "E1 every bit turned on is in the ok mask");
-			CHECK(((IN.feat[t] & ~feat[t]) & ~IN.clear_ok[t]) == 0, "E1 every bit turned off is in the clear-ok mask");
+			CHECK(((feat[t] & ~IN.orig[t]) & ~IN.ok[t]) == 0, "E1 every bit turned on is in the ok mask");
+			CHECK(((IN.orig[t] & ~feat[t]) & ~IN.clear_ok[t]) == 0, "E1 every bit turned off is in the clear-ok mask");
 		}
 		CHECK(type_err == 0 && mask_err == 0, "success: no offending feature reported");
 		REACH("accepted");
 		if (feat[0] != IN.feat[0]) REACH("accepted-change");
+		if (feat[2] != IN.feat[2] && IN.c0 == '^') REACH("accepted-clear");
 	} else {
-		CHECK(mask_err == 0 || type_err == (type_err & (E2P_FEATURE_TYPE_MASK | E2P_FEATURE_NEGATE_FLAG)), "E2 type_err is a word index, possibly negated");
-		CHECK(mask_err == 0 || (type_err & E2P_FEATURE_TYPE_MASK) <= 2, "E2 word index 0..2");
 		if (mask_err) {
 			t = type_err & E2P_FEATURE_TYPE_MASK;
+			CHECK(type_err == (type_err & (E2P_FEATURE_TYPE_MASK | E2P_FEATURE_NEGATE_FLAG)) && t <= 2, "E2 type_err is a word index, possibly negated");
 			CHECK(t > 2 || !(((type_err & E2P_FEATURE_NEGATE_FLAG) ? IN.clear_ok[t] : IN.ok[t]) & mask_err),
 			      "E2 the feature reported is outside the mask that applies");
+			CHECK(KEYWORD_SEEN || !(type_err & E2P_FEATURE_NEGATE_FLAG) == (IN.c0 == '+' || IN.c0 == 'a'),
+			      "E2 NEGATE reported iff the word asked for a clear");
 		}
+		for (t = 0; t < 3; t++)
+			CHECK(feat[t] == IN.feat[t], "a refused word changes nothing itself");
 		REACH("refused");
 		if (mask_err && (type_err & E2P_FEATURE_NEGATE_FLAG)) REACH("refused-clear");
+		if (!mask_err) REACH("refused-unknown-word");
 	}
 	for (t = 0; t < 3; t++)
 		CHECK(ok[t] == IN.ok[t] && clear_ok[t] == IN.clear_ok[t], "the masks are not written");
